@@ -67,7 +67,7 @@ def positions(root):
 
 ELEM_FAULTS = ['delete', 'duplicate', 'empty', 'swap']
 ATTR_FAULTS = ['delete', 'empty', 'junk']
-TEXT_FAULTS = ['delete', 'junk', 'unbalanced']
+TEXT_FAULTS = ['delete', 'junk', 'unbalanced', 'typeref-ancestor', 'typeref-self']
 HREF_FAULTS = ['missing', 'self', 'ancestor', 'nohash']
 
 
@@ -88,6 +88,20 @@ def drg_ancestor_id(root, target):
     rec(root, [])
     ids = [e.attrib.get('id') for e in path if e.attrib.get('id') and e is not root]
     return (ids[-1] if ids else None), (ids[0] if ids else None)
+
+
+def enclosing_type_names(root, target):
+    """names of the itemDefinition / itemComponent elements that enclose `target`, outermost first"""
+    path = []
+
+    def rec(e, acc):
+        acc = acc + [e]
+        if e is target:
+            path.extend(acc)
+            return True
+        return any(rec(k, acc) for k in e)
+    rec(root, [])
+    return [e.attrib['name'] for e in path if local(e.tag) in ('itemDefinition',) and e.attrib.get('name')]
 
 
 def apply_fault(root, site, fault):
@@ -120,7 +134,15 @@ def apply_fault(root, site, fault):
         else:
             e.attrib[a] = '§ in for (( "'
     elif kind == 'text':
-        if fault == 'delete':
+        if fault in ('typeref-ancestor', 'typeref-self'):
+            # the text of a (nested) itemComponent/typeRef becomes the name of the outermost / the closest enclosing item definition or component
+            if local(e.tag) != 'typeRef':
+                return None
+            names = enclosing_type_names(r, e)
+            if not names:
+                return None
+            e.text = names[0] if fault == 'typeref-ancestor' else names[-1]
+        elif fault == 'delete':
             e.text = None
         elif fault == 'junk':
             e.text = 'for in in )) {{ "'
@@ -276,4 +298,66 @@ def generated_models():
         body = gen_item_defs(shape) + '  <inputData name="i1" id="_i1"><variable name="i1" typeRef="tA"/></inputData>\n'
         body += '  <decision name="d0" id="_d0"><variable name="d0" typeRef="tA"/><informationRequirement id="_r"><requiredInput href="#_i1"/></informationRequirement><literalExpression><text>i1</text></literalExpression></decision>\n'
         model('items-' + name, body, ['d0'], ['i1'])
+    return out
+
+
+_IDS = [0]
+
+
+def gen_item_tree(name, ref, comps, depth=0, collection=False):
+    """comps: [(component name, typeRef or None, sub-components, is collection)]"""
+    tag = 'itemDefinition' if depth == 0 else 'itemComponent'
+    ind = '  ' * (depth + 1)
+    _IDS[0] += 1
+    s = '%s<%s name="%s" id="_t%d_%s_%d"%s>\n' % (ind, tag, name, depth, name, _IDS[0], ' isCollection="true"' if collection else '')
+    if ref:
+        s += '%s  <typeRef>%s</typeRef>\n' % (ind, ref)
+    for c in comps:
+        s += gen_item_tree(c[0], c[1], c[2], depth + 1, c[3] if len(c) > 3 else False)
+    return s + '%s</%s>\n' % (ind, tag)
+
+
+def nest(depth, leaf_ref, collection_at=None):
+    """a chain of components c1 { c2 { .. c<depth>: typeRef leaf_ref } } (with a sibling leaf of type number at every level)"""
+    comps = [('c%d' % depth, leaf_ref, [], collection_at == depth)]
+    for d in range(depth - 1, 0, -1):
+        comps = [('c%d' % d, None, comps + [('n%d' % d, 'number', [])], collection_at == d)]
+    return comps
+
+
+def nested_item_models():
+    """[(label, xml, invocables, inputs, coq graph term, cyclic?)]: type-reference cycles through components at nesting depth 1..4,
+    through collections, through a reference followed by nested components; and the same shapes without a cycle"""
+    out = []
+    use = ('  <inputData name="i1" id="_i1"><variable name="i1" typeRef="tA"/></inputData>\n'
+           '  <decision name="d0" id="_d0"><variable name="d0"/><informationRequirement id="_r"><requiredInput href="#_i1"/></informationRequirement><literalExpression><text>i1</text></literalExpression></decision>\n')
+    for depth in (1, 2, 3, 4):
+        for coll in (None, 1, depth):
+            out.append(('items-nested-self-depth%d-coll%s' % (depth, coll), HDR + gen_item_tree('tA', None, nest(depth, 'tA', coll)) + use + '</definitions>\n', ['d0'], ['i1'], '[(0, [0])]', True))
+            out.append(('items-nested-mutual-depth%d-coll%s' % (depth, coll), HDR + gen_item_tree('tA', None, nest(depth, 'tB', coll)) + gen_item_tree('tB', None, nest(depth, 'tA', coll)) + use + '</definitions>\n',
+                        ['d0'], ['i1'], '[(0, [1]); (1, [0])]', True))
+            out.append(('items-nested-ref-then-depth%d-coll%s' % (depth, coll), HDR + gen_item_tree('tA', 'tB', []) + gen_item_tree('tB', None, nest(depth, 'tA', coll)) + use + '</definitions>\n',
+                        ['d0'], ['i1'], '[(0, [1]); (1, [0])]', True))
+            out.append(('items-nested-acyclic-depth%d-coll%s' % (depth, coll), HDR + gen_item_tree('tA', None, nest(depth, 'tB', coll)) + gen_item_tree('tB', None, nest(depth, 'number', coll)) + use + '</definitions>\n',
+                        ['d0'], ['i1'], '[(0, [1]); (1, [9])]', False))
+    return out
+
+
+def long_cycle_graphs():
+    """requirement graphs with a cycle of path length 1..5, entered directly or through a tail of 1..2 nodes"""
+    out = {}
+    for k in (1, 2, 3, 4, 5):
+        ring = {i: [(i + 1) % k] for i in range(k)}
+        out['ring%d' % k] = dict(ring)
+        g = dict(ring)
+        g[k] = [0]
+        out['tail1-ring%d' % k] = g
+        g = dict(ring)
+        g[k] = [k + 1]
+        g[k + 1] = [k - 1]
+        out['tail2-ring%d' % k] = g
+        g = {i: [(i + 1) % k, k] for i in range(k)}
+        g[k] = []
+        out['ring%d-with-exit' % k] = g
+    out['path5'] = {i: ([i + 1] if i < 4 else []) for i in range(5)}
     return out
